@@ -31,6 +31,8 @@ def run_check(tier):
     # JSON archive: the same request scripts against documents rendered by the JSON spec (several styles / encodings)
     jc.load_leg(chk, tier, "fields", {"MaxOps": 2 if quick else 3, "Widths": "{0, 3}" if quick else "{0, 1, 3, 4, 6}"},
                 ["SentinelIntact", "UnchangedOnFailure", "Export"], label="JSON scripted load")
+    jc.load_leg(chk, tier, "fields", {"MaxOps": 2 if quick else 3, "Widths": "{0, 3}" if quick else "{0, 1, 2, 3, 5}"},
+                ["SentinelIntact", "UnchangedOnFailure", "Export"], label="XML scripted load", arch="xml")
     return chk.finish()
 
 
